@@ -34,7 +34,10 @@ CHECKS["C01"] = dict(
           "the ISO C 6.10.1 conditional-stack semantics per node (attribution before every early return, push/replace/"
           "pop discipline, exactly one branch of a chain, #elif/#else after a taken branch skipped without evaluation, "
           "node evaluated with the visitor's own platform object), plus the node-role table read from the class "
-          "hierarchy. The composition tree-build + pruned visit == flat conditional stack is NOT proved: it is a "
+          "hierarchy, and one level of the pruned preorder traversal Node.visit (the visitor sees the node first; unless "
+          "it answers NEXT_SIBLING every child is visited in list order with the same visitor, nothing else; any number of "
+          "children, the recursive calls being the recursion hypothesis). The composition tree-build + pruned visit == flat "
+          "conditional stack is NOT proved: it is a "
           "bounded stand-in (every well-nested sequence of <=5 (quick) / <=7 (thorough) lines over 13 directive kinds, "
           "X predefined or not, real finder.find against a reference stack), labelled bounded in the evidence."),
     design_ref="DESIGN.md section 5 C01, section 9",
@@ -84,8 +87,11 @@ CHECKS["C06"] = dict(
     text=("ParserState.get_setmap is proved, for every code base, parse state and enumeration order, to return for each "
           "platform set S exactly the sum over the canonical (non-skipped) files of the lines of the code nodes whose "
           "association is exactly S (nested loops cut by a big-sum invariant over files and a prefix-sum invariant over "
-          "the node list) - the 'one platform set per line' clause. The agreement of the summary, tree and coverage "
-          "front ends (report.summary, FileTree, coverage._compute) is not under contract yet."),
+          "the node list) - the 'one platform set per line' clause. One level of FileTree.insert (the body of its path walk) is proved to "
+          "add the file's figures, set by set, to the directory above that level - nothing when the FILE is a symbolic link - "
+          "to reuse or create exactly one child under the level's name (a file node carrying the file's figures, a directory "
+          "node empty) and to move on to it. The composition of the levels into whole trees and the agreement of the "
+          "summary, tree and coverage front ends (report.summary, coverage._compute) are bounded stand-ins."),
     design_ref="DESIGN.md section 5 C06, section 9",
     note=COMMON_NOTE + "A4; A10 big-sum/prefix-sum axioms; tree.walk() a pure function of the tree; get_tree/get_map used through their own contracts (C15).",
     technique=TECH,
@@ -133,7 +139,8 @@ CHECKS["C13"] = dict(
           "one entry per configuration of every supported command whose file exists, with `file` and every -I/-isystem "
           "directory resolved against the entry's directory (itself relative to the root when not absolute), one warning "
           "per skipped entry, never an exception for any spelling, later entries unaffected; CompileCommand.is_supported "
-          "is proved for the arguments form. Three defects found this way were fixed in /repo."),
+          "is proved for the arguments form and CompileCommand.arguments for both forms (shlex.split uninterpreted). "
+          "Three defects found this way were fixed in /repo."),
     design_ref="DESIGN.md section 5 C13, section 9",
     note=COMMON_NOTE + "A4 os.path functions uninterpreted; from_file / ArgumentParser.parse_args opaque; DEBUG logging disabled; the `command` string form (shlex) only in the bounded native run.",
     technique=TECH,
@@ -161,8 +168,10 @@ CHECKS["C11"] = dict(
           "contract within reach can verify, so this check evaluates the extraction contract of the statement on the real "
           "ArgumentParser('gcc').parse_args for every argument vector of <= 2 (quick) / <= 3 (thorough) tokens over a "
           "catalogue of recognised options (both spellings, awkward values) and unmodelled real compiler flags, plus seeded "
-          "random vectors of 4..12 tokens, each also rendered as a shell-quoted command string. Only the registered option "
-          "table is discharged (syntactic obligations on the real ast). Seven deviations are recorded as known findings."),
+          "random vectors of 4..12 tokens, each also rendered as a shell-quoted command string. Discharged for all inputs are only the "
+          "registered option table (syntactic obligations on the real ast) and CompileCommand.arguments (the arguments form is "
+          "returned unchanged, an empty list included; otherwise shlex.split(command)). Thirteen deviations are recorded as "
+          "known findings."),
     design_ref="DESIGN.md section 5 C11, section 9",
     note="A6 argparse/shlex unverified; bound stated in evidence.coverage.bounded; tokens exhibiting recorded findings are run in a separate target so that they cannot mask new failures.",
     technique="contract on the real function checked up to a stated bound (native), option table by syntactic obligations; deductive proof not applicable to argparse",
